@@ -19,7 +19,8 @@ CHECKS = [
         "attributes again (attribute-level byte identity), although not_nullable / caller_allocates-on-in are normalised; also "
         "emission contracts for constants, members, properties and functions.",
         "Trusted: givc, ElementTree, _parse_type and _parse_generic_attribs by assumed contract, XML layer (C20). Only parameter "
-        "elements have both directions under contract; return values, types, records, classes, documents as a whole and the "
+        "elements have both directions under contract; for <array>/<type> the writer side is under contract (_write_type, with the "
+        "reader's zero-terminated default rule as specification); return values, records, classes, documents as a whole and the "
         "shipped GIR files are not yet covered.", "DESIGN.md section 4 C07"),
     chk("C09", "The section-offset arithmetic of the real GIObjectInfo accessors (get_property/method/vfunc/constant, signal offset, "
         "field offset walk over embedded callbacks) is proved equal to the ObjectBlob layout of gitypelib-internal.h written as a "
@@ -66,9 +67,11 @@ CHECKS = [
     chk("C18", "Sequential contracts on the real CacheStore functions: an entry older than its source is never reported valid or "
         "served, an entry that fails to unpickle is discarded and never propagated as an exception, load validates before "
         "unpickling and never writes, store writes only a private temp file, completes it before the single rename into place, and "
-        "uses no other way of writing.",
-        "Trusted: givc, file-system primitives by assumed contract, os.stat as a function of the path (NO interference between "
-        "steps: concurrent schedules and crash points are not decided), rename atomicity. Version purge not yet under contract.",
+        "uses no other way of writing; the version purge precedes the new stamp; removing an entry that has vanished meanwhile "
+        "(FileNotFoundError from unlink, e.g. a concurrent scanner) is never an error.",
+        "Trusted: givc, file-system primitives by assumed contract (os.unlink raising FileNotFoundError / PermissionError / other "
+        "OSError with the errno CPython attaches), os.stat as a function of the path (NO interference between steps: concurrent "
+        "schedules and crash points are not decided beyond call order and tolerated ENOENT), rename atomicity.",
         "DESIGN.md section 4 C18"),
     chk("C19", "The library pattern is extracted from the real source, translated mechanically to an SMT regular expression with a "
         "symbolic library name and proved component-wise equal to the statement's language (regular-language lemmas, z3); "
@@ -89,9 +92,14 @@ CHECKS = [
         "(write_comment).", "DESIGN.md section 4 C20"),
     chk("C01", "Contracts on the real annotation-application functions (_apply_annotations_param_ret_common, "
         "_apply_transfer_annotation, _is_pointer_type): every clause of the property for direction, caller-allocation, "
-        "nullable/optional/not, skip, doc and transfer validity is a named obligation discharged for all field valuations.",
-        "Trusted: givc, schema, Transformer lookups (uninterpreted), _resolve_toplevel and _adjust_container_type by assumed "
-        "contract (array/element-type/closure/destroy and GIR emission not yet under contract).", "DESIGN.md section 4 C01"),
+        "nullable/optional/not, skip, doc and transfer validity is a named obligation discharged for all field valuations; "
+        "array annotations (_apply_annotations_array, _get_validate_parameter_name/_field_name): zero-termination, fixed size, "
+        "length parameter as written, the length parameter follows the direction, unknown length name is fatal; emission of "
+        "every parameter / return / array attribute by GIRWriter._write_parameter/_write_return_type/_write_type.",
+        "Trusted: givc, schema, Transformer lookups (uninterpreted), _resolve_toplevel, _resolve, Callable.get_parameter and "
+        "_adjust_container_type (the dispatcher in front of the array function) by assumed contract; element-type, "
+        "closure/destroy application (_apply_annotations_param_callback...) not yet under contract; int(str) on canonical "
+        "decimals only.", "DESIGN.md section 4 C01"),
     chk("C11", "Counting half: MessageLogger.log and every module-level logging entry point increment the diagnostic counter "
         "exactly once on every exit (suppressed, printed, SystemExit for fatal).",
         "Trusted: givc, schema, MessageLogger.get singleton, Position.format. Parser exception-freedom, positions and the "
